@@ -176,10 +176,13 @@ type kSys struct {
 	stopOp    *qsched.Op
 	// lock gates (scenarios with LockGates): every acquisition of the state lock by an operation goroutine is a
 	// scheduling point "lock:<operation>/<n>#<k>:<Lock|RLock>"
-	gmu    sync.Mutex
-	opOf   map[string]string // goroutine id -> operation instance
-	lockN  map[string]int
-	gating bool
+	gmu sync.Mutex
+	// probe "queue-lock": the plot queue changed while the harness held the queue's own mutex
+	probeMutated bool
+	probeNote    string
+	opOf         map[string]string // goroutine id -> operation instance
+	lockN        map[string]int
+	gating       bool
 }
 
 var kGoidRe = regexp.MustCompile(`^goroutine (\d+) `)
@@ -382,6 +385,8 @@ func (a kAction) String() string {
 		return "plot-" + a.Name
 	case "kstop":
 		return "keeper.Stop()"
+	case "probe":
+		return "probe:" + a.Name
 	}
 	return a.Kind
 }
@@ -464,6 +469,24 @@ func (k *kSys) do(a kAction) []qsched.GoroutineInfo {
 		ev := k.db[i].evCh
 		k.db[i].mu.Unlock()
 		ev <- a.Name
+	case "probe":
+		// Lock-discipline probe (deterministic; nothing is inferred from timing): plotterQueue.Delete - called by
+		// StopWS/RemoveWS/DeleteWS from API goroutines - rebuilds the queue while holding the queue's mutex. The harness
+		// takes that mutex in its place and lets a plot request reach a plotter that waits in its idle select. If the
+		// plotter took the mutex for its Push it would block and the queue would keep its size.
+		sk := k.sk
+		q := sk.queue
+		q.Lock()
+		before := q.Prque.Size()
+		sid := k.ws[0].id.String()
+		k.ops = append(k.ops, k.s.Start("plot(a)", func() (interface{}, error) { return nil, sk.ActOnWorkSpace(sid, engine.Plot) }))
+		k.opDesc = append(k.opDesc, "plot(a)")
+		k.issued++
+		k.quiesce()
+		after := q.Prque.Size()
+		q.Unlock()
+		k.probeMutated = after != before
+		k.probeNote = fmt.Sprintf("queue size %d -> %d while the harness held plotterQueue's mutex", before, after)
 	case "kstop":
 		sk := k.sk
 		k.stopOp = k.s.Start("keeper.Stop", func() (interface{}, error) { return nil, sk.Stop() })
